@@ -598,6 +598,22 @@ func (s *Session) enterBlock(fr *Frame, b *ssa.BasicBlock) *State {
 			}
 			before := s.heapGet(st, n, sortN)
 			s.havocHeap(st, n, sortN)
+			if n == "X:evlast" || n == "X:evres" {
+				// only the events that can be raised inside the loop lose their recorded position / result
+				after := st.Heap[n]
+				s.nfresh++
+				r := fmt.Sprintf("e!%d", s.nfresh)
+				excl := ""
+				for ev := range s.scanEvents {
+					excl += fmt.Sprintf(" (not (= %s %s))", r, s.strLit(ev).S)
+				}
+				if n == "X:evres" {
+					excl += fmt.Sprintf(" (not (= %s %s))", r, s.strLit("time.Now").S)
+				}
+				ax := fmt.Sprintf("(forall ((%s Int)) (! (=> (and true%s) (= (select %s %s) (select %s %s))) :pattern ((select %s %s))))", r, excl, after.S, r, before.S, r, after.S, r)
+				s.assume(T{ax, SBool})
+				continue
+			}
 			if !s.scanReal[n] {
 				// only allocations touch this heap family inside the loop: objects that existed at loop entry are unchanged
 				after := st.Heap[n]
@@ -889,6 +905,11 @@ func (s *Session) toLoc(v Val) *Loc {
 
 func (s *Session) safety(fr *Frame, st *State, kind string, cond T, what string) {
 	if !s.eng.safetyOn(fr) {
+		return
+	}
+	// panics inside inlined helpers belong to the helper's own contract (if it has one); only the function under
+	// contract itself gets bounds / division / assertion obligations (model-size bounds are always checked)
+	if !fr.top && kind != "txnsize" {
 		return
 	}
 	fr.nSafety[kind]++
@@ -1677,6 +1698,19 @@ func (s *Session) mapUpdate(fr *Frame, x *ssa.MapUpdate, st *State) {
 		h := s.heapGet(st, valN[i], valS[i])
 		st.Heap[valN[i]] = s.define("H", Store(h, m, Store(Select(h, m), k, v.L[i])))
 	}
+}
+
+// mapLookupRaw: like mapLookup but without the "absent => zero value" normalisation (raw stored value).
+func (s *Session) mapLookupRaw(st *State, mt *types.Map, m, k T) (Val, T) {
+	domN, _, valN, valS, leaves := s.mapHeaps(st, mt)
+	dom := s.heapGet(st, domN, arrSort(arrSort(SBool)))
+	had := Select(Select(dom, m), k)
+	v := Val{Typ: mt.Elem()}
+	for i := range leaves {
+		h := s.heapGet(st, valN[i], valS[i])
+		v.L = append(v.L, Select(Select(h, m), k))
+	}
+	return v, had
 }
 
 func (s *Session) mapLookup(st *State, mt *types.Map, m, k T) (Val, T) {
